@@ -376,7 +376,11 @@ func (w *Writer) OffsetForFrame(idx uint64) (uint32, error) {
 	}
 	os := w.getOffsets()
 	entryIndex := idx - w.info.BaseIndex
-	// No bounds check on entryIndex since LastIndex must ensure it's in bounds.
+	if entryIndex >= uint64(len(os)) {
+		// Can't happen with sane metadata since LastIndex bounds idx, but segment
+		// info comes from the meta store and may be damaged (e.g. BaseIndex 0).
+		return 0, types.ErrNotFound
+	}
 	return os[entryIndex], nil
 }
 
